@@ -616,6 +616,16 @@ namespace smt
         _preds[from][to] = pred;
     }
 
+#ifdef ORATIO_VERIF
+    SMT_EXPORT std::vector<idl_theory::verif_constraint> idl_theory::verif_constraints() const
+    {
+        std::vector<verif_constraint> cs;
+        for (const auto &[v, d] : var_dists)
+            cs.push_back({d->b, d->from, d->to, d->dist});
+        return cs;
+    }
+#endif
+
     void idl_theory::resize(const size_t &size) noexcept
     {
         const size_t c_size = _dists.size();
